@@ -230,6 +230,29 @@ def target_time_constants():
         sess.check("lemma", ax + [r == 0], val == tmin, fn.lineno, label="first-time-constant=tau_min")   # (k-1)/(n-1) at k=1
         sess.check("lemma", ax + [r == 1], val == tmax, fn.lineno, label="last-time-constant=tau_max")    # (k-1)/(n-1) at k=n
         sess.assumptions.append("_generate_time_constants: numpy log/10** as log10/pow10 with pow10(log10 x)=x and log10(x/y)=log10 x-log10 y")
+        # data flow of the real function on terms, every path (a comparison of symbolic values is an oracle decision): whatever
+        # the frequencies and the extension, the k-th time constant is 10**(log(tmin) + (k-1)/(n-1) log(tmax/tmin)) with
+        # tmin = 1/(w_max F_ext), tmax = F_ext/w_min -- the test's own range, never another one
+        from . import dataflow as DF
+        from .dataflow import T, opaque
+        n_paths = 0
+
+        def once():
+            w = T.var("w")
+            kvec = T.var("k")
+            ns = {"max": lambda x: T.var("w_max") if x is w else max(x), "min": lambda x: T.var("w_min") if x is w else min(x), "log": opaque("log"),
+                  "array": lambda x, *a, **k_: kvec, "list": list, "range": range, "ValueError": ValueError, "float64": None, "int64": None}
+            O.load(kk.UTIL, ["_generate_time_constants"], ns)
+            return ns["_generate_time_constants"](w, 5, T.var("log_F_ext")), kvec
+        for log, (out, kvec), facts in DF.explore(once):
+            n_paths += 1
+            F = 10 ** T.var("log_F_ext")
+            tmin = 1 / (T.var("w_max") * F)
+            tmax = F / T.var("w_min")
+            want = 10 ** (opaque("log")(tmin) + (kvec - 1) / (5 - 1) * opaque("log")(tmax / tmin))
+            tag = "[" + ",".join(f"{w_}={v}" for w_, v in log) + "]" if log else ""
+            DF.eq_check(sess, f"tau_k = 10**(log(tmin) + (k-1)/(n-1) log(tmax/tmin)), tmin = 1/(w_max F_ext), tmax = F_ext/w_min{tag}", out, want)
+        sess.check("cover", [], z3.BoolVal(n_paths >= 1), 0, label=f"paths={n_paths}")
     return (f"{kk.UTIL}:_generate_time_constants", kk.UTIL, "_generate_time_constants", run)
 
 
